@@ -751,6 +751,12 @@ func (r *multiCIDRRangeAllocator) updateCIDRsAllocation(logger klog.Logger, data
 		node, err := r.nodeLister.Get(data.nodeName)
 		if err != nil {
 			logger.Error(err, "Failed while getting node for updating Node.Spec.PodCIDRs", "node", klog.KRef("", data.nodeName))
+			// Nothing has been sent to the API server, give the reservation back.
+			for _, cidr := range data.allocatedCIDRs {
+				if releaseErr := r.Release(logger, data.clusterCIDR, cidr); releaseErr != nil {
+					logger.Error(releaseErr, "Failed to release reserved CIDR", "cidr", cidr, "clusterCIDR", data.clusterCIDR.Name)
+				}
+			}
 			return err
 		}
 
